@@ -18,28 +18,29 @@ import (
 
 // StreamOpts selects the features a generated stream may use.
 type StreamOpts struct {
-	Comments      bool
-	Padding       bool
-	CustomText    bool
-	CustomBinary  bool
-	RemoteRef     bool
-	Markers       bool
-	Records       bool
-	Media         bool
-	Chunked       bool // emit some arrays in chunked (begin/chunk/data) form
-	NoNaNForms    bool // only OnNan for NaN (no float/decimal NaN forms that rules rewrite)
-	NoNilBig      bool // never nil big numbers
-	NoBoolEvent   bool // only OnTrue/OnFalse
-	NoEdgeNode    bool
-	NoTypedArrays bool
-	NoBigFloat    bool
-	NoNegZero     bool
-	SafeStrings   bool // strings limited to printable text without comment terminators
-	MaxDepth      int
-	Size          int // approximate number of value events
-	MaxArrayLen   int // max elements/bytes in arrays
-	MaxComments   int
-	NoForwardRefs bool // with Markers: only references to markers already defined
+	Comments        bool
+	Padding         bool
+	CustomText      bool
+	CustomBinary    bool
+	RemoteRef       bool
+	Markers         bool
+	Records         bool
+	Media           bool
+	Chunked         bool // emit some arrays in chunked (begin/chunk/data) form
+	NoNaNForms      bool // only OnNan for NaN (no float/decimal NaN forms that rules rewrite)
+	NoNilBig        bool // never nil big numbers
+	NoBoolEvent     bool // only OnTrue/OnFalse
+	NoEdgeNode      bool
+	NoTypedArrays   bool
+	NoBigFloat      bool
+	NoNegZero       bool
+	SafeStrings     bool // strings limited to printable text without comment terminators
+	MaxDepth        int
+	Size            int // approximate number of value events
+	MaxArrayLen     int // max elements/bytes in arrays
+	MaxComments     int
+	NoForwardRefs   bool // with Markers: only references to markers already defined
+	WideCustomTypes bool // custom type codes beyond 32 bits as well
 }
 
 type streamGen struct {
@@ -995,6 +996,10 @@ func (g *streamGen) media() {
 func (g *streamGen) custom(binary bool) {
 	r := g.r
 	ct := []uint64{0, 1, 127, 128, 300, 65536, math.MaxUint32}[r.Intn(7)]
+	if g.o.WideCustomTypes && r.Intn(3) == 0 {
+		// codes beyond 32 bits: the event API, the validator and CTE carry 64 bits (the CBE decoder does not; CBE-bound checks leave this off)
+		ct = []uint64{1 << 32, 1<<32 + 1, 1 << 40, math.MaxInt64, 1 << 63, math.MaxUint64}[r.Intn(6)]
+	}
 	if binary {
 		data := randBytes(r, r.Intn(g.o.MaxArrayLen+1))
 		if g.o.Chunked && r.Intn(3) == 0 {
